@@ -310,15 +310,17 @@ From V Require Import C05.Laws C05.Lemmas.
 
 Theorem counters_partition_sync : forall w u w' wr,
   sync_job w u [] = (w', false, wr) ->
+  c_vdel (v_ctl w) = false ->
   pg_admitted (v_pg w) = true -> st_phase (v_st w) <> PhNone ->
   v_pods w = w_pods w -> v_st w = w_st w ->
   NoDup (map t_name (s_tasks (v_spec w))) -> NoDup (pod_ids (w_pods w)) ->
   (forall p, In p (w_pods w) -> exists k, In k (s_tasks (v_spec w)) /\ t_name k = p_task p) ->
   (st_cnt (w_st w'), st_term (w_st w')) = tally (w_pods w').
 Proof.
-  intros w u w' wr H Hpg Hph Hfresh Hst Hts Hnd Hown.
+  intros w u w' wr H Hdel Hpg Hph Hfresh Hst Hts Hnd Hown.
   destruct (sync_counters_partition (v_spec w) (w_pods w) Hts Hnd Hown) as [Herr Hpart]. cbv zeta in Herr, Hpart.
-  unfold sync_job, sync_job_gen in H.
+  unfold sync_job, sync_job_gen in H. rewrite Hdel in H.
+  destruct (c_queue (v_ctl w)); cbn [negb] in H; [|discriminate].
   destruct (phase_beq (st_phase (v_st w)) PhNone) eqn:Ei.
   { apply phase_beq_true in Ei. contradiction. }
   cbn [andb] in H. rewrite pj7, Hpg in H. cbn [negb] in H. rewrite pj6, pj5, Hfresh in H.
@@ -458,6 +460,7 @@ Lemma kill_pods_success_shape : forall w rt tg u w',
     st_cnt (w_st w') = fst (tally rest) /\ st_term (w_st w') = Z.of_nat (length kill) + snd (tally rest).
 Proof.
   intros w rt tg u w' H. unfold kill_pods, kill_pods_gen in H.
+  destruct (c_vdel (v_ctl w)); [inversion H|].
   destruct tg as [[t|t p|]|].
   all: try (destruct (kill_select _ _ _ _ _) as [kill term0] eqn:Hsel;
             rewrite any_fault_nil in H; cbn [fails_status existsb] in H).
